@@ -190,7 +190,8 @@ pub fn run(seed: u64, tier: &str, out: &mut dyn FnMut(String)) {
         }
     }
     // node ids under concurrent creation
-    for &threads in [2usize, 8, 16].iter() {
+    // (one thread too: creation interleaved with REMOVAL of the newest node - a removed node's id stays used)
+    for &threads in [1usize, 2, 8, 16].iter() {
         let per = if tier == "thorough" { 100_000 } else { 20_000 };
         let barrier = Arc::new(Barrier::new(threads));
         let mut hs = vec![];
@@ -206,7 +207,11 @@ pub fn run(seed: u64, tier: &str, out: &mut dyn FnMut(String)) {
                 b.wait();
                 for k in 0..per {
                     if (k + t) % 2 == 0 {
-                        ids.push(g.add_node(0));
+                        let id = g.add_node(0);
+                        ids.push(id);
+                        if k % 5 == 0 {
+                            g.remove_node(id);
+                        }
                     } else {
                         // through the instruction
                         st.int_stack.push(0);
@@ -215,6 +220,12 @@ pub fn run(seed: u64, tier: &str, out: &mut dyn FnMut(String)) {
                         }
                         if let Some(id) = st.int_stack.pop() {
                             ids.push(id as usize);
+                            if k % 7 == 1 {
+                                // (no instruction removes a node: the API is used on the graph of the state)
+                                if let Some(gr) = st.graph_stack.get_mut(0) {
+                                    gr.remove_node(id as usize);
+                                }
+                            }
                         }
                         if k % 1000 == 999 {
                             st.graph_stack.flush();
